@@ -95,7 +95,7 @@ def make_chunk_decoder_job(variant, tier):
     return job
 
 
-def drive(ex, fn, args, st0, pcs, ghost, max_calls, item_of, src_key='#src', nseg=1, eof=False):
+def drive(ex, fn, args, st0, pcs, ghost, max_calls, item_of, src_key='#src', nseg=1, eof=False, start=None):
     """tokio-util FramedRead's documented loop, with the transport delivering the input in `nseg` consecutive non-empty segments
     (symbolic cut points) and then going quiet: after each read, decode is called until it returns Ok(None); Ok(None) makes the
     adapter read again; the first Err ends the stream.  item_of(ex, path) -> [(cond, kind, value)], kind 'some' | 'none' | 'err'.
@@ -110,7 +110,18 @@ def drive(ex, fn, args, st0, pcs, ghost, max_calls, item_of, src_key='#src', nse
     st = dict(st0)
     st[src_key] = whole.with_(len=bounds[1])
     out = []
-    first = ex.run(fn, args, list(pcs) + cut_pcs, ghost=ghost, st0=st)
+    if start is not None:
+        # continue from a finished path (e.g. after the constructor of the codec ran): its state, condition and log carry over
+        q0 = start.fork()
+        q0.status, q0.ret = start.status, start.ret
+        q0.st.update(st)
+        q0.pcs += list(pcs) + cut_pcs
+        for k, v in (ghost or {}).items():
+            q0.ghost.setdefault(k, [])
+            q0.ghost[k] = list(q0.ghost[k]) + list(v)
+        first = ex.resume(q0, fn, args)
+    else:
+        first = ex.run(fn, args, list(pcs) + cut_pcs, ghost=ghost, st0=st)
     work = [(p, [], 1, 1) for p in first]
     while work:
         p, rel, ncall, seg = work.pop()
@@ -233,6 +244,9 @@ def framed_spec(decoder, cfg, expect, cand_names, extra_cfg=None):
         spec['candidates'] = cands
         if '#clock_secs' in m:
             spec['clock'] = m['#clock_secs']
+        sh = sorted((int(k[5:]), v) for k, v in m.items() if k.startswith('shake') and k[5:].isdigit())
+        if sh:
+            spec['shake'] = [v for _k, v in sh]
         return spec
     return f
 
@@ -313,4 +327,103 @@ def jobs(prog, tier):
         for mode in ('Server', 'Client'):
             for nseg in (1, 2):
                 js.append(('ss::tcp::decode[N=%d,%s,%s,segments=%d]' % (N, kind, mode, nseg), make_ss_tcp_job(N, kind, mode, tier, nseg), 1200))
+    for (chunk, padding) in VMESS_COMBOS:
+        for side in ('server', 'client'):
+            sec = 'Aes128Gcm' if (chunk, side) != ('Auth', 'client') else 'Chacha20Poly1305'
+            js.append(('vmess::decode_payload[%s,%s,%s,%s]' % (sec, chunk, padding, side), make_vmess_body_job(sec, chunk, padding, side, tier, 1), 1200))
     return js
+
+
+# --------------------------------------------------------------------------- VMess body
+VMESS_OPTS = {'Plain': 0, 'Shake': 4, 'Auth': 16}
+VMESS_COMBOS = [('Plain', 'Empty'), ('Shake', 'Shake'), ('Auth', 'Shake'), ('Auth', 'Empty'), ('Shake', 'Empty')]
+
+
+def shake_contract(ex):
+    """ShakeSizeParser::next as the k-th draw of one deterministic stream per connection direction (SHAKE128 of the body IV is a
+    function of the IV: sender and receiver see the same draws)"""
+    def nxt(ex_, p, m, a, func, fr):
+        k = p.ghost.get('shake_idx', 0)
+
+        def app(q):
+            q.ghost['shake_idx'] = k + 1
+        return one((wire.shake_draw(k), 'u16'), apply=app)
+    ex.overrides.insert(0, (re.compile(r'ShakeSizeParser::next$'), nxt))
+    ex.overrides.insert(0, (re.compile(r'ShakeSizeParser::new$'), lambda ex_, p, m, a, fu, fr: one(Agg('struct', (Opaque('xof reader'), Arr(z3.K(BV64, bvv(0, 8)), 'u8', 2)), 'ShakeSizeParser'))))
+
+
+def vmess_setup(ctx, security, chunk, padding, side, mode, unroll):
+    """runs the real AEADBodyCodec::new_decoder for a header with the given options and returns (ex, start path, session arrays)"""
+    from .vmess_cases import session_val, SECURITY
+    ex = base_exec(ctx, 16, unroll, mode=mode)
+    vmess_option_contract(ex)
+    shake_contract(ex)
+    prog = ctx.prog
+    mask = 1 | VMESS_OPTS[chunk] | (8 if padding == 'Shake' else 0)
+    hdr = Agg('struct', ((bvv(1, 8), 'u8'), Enum(bv64(1), {}, 'RequestCommand'), Agg('optmask', ((bvv(mask, 8), 'u8'),), 'OptionSet'),
+                         Enum(bv64(SECURITY[security]), {}, 'SecurityType'), Opaque('address'), symarr('id', 16)), 'RequestHeader')
+    sess = session_val('ServerSession' if side == 'server' else 'ClientSession')
+    fn = prog.find_impl_fn('AEADBodyCodec', 'new_decoder')
+    paths = ex.run(fn, [Ref('#hdr'), Ref('#sess')], [], st0={'#hdr': hdr, '#sess': sess})
+    ok = [p for p in paths if p.status == 'return' and 'Ok' in p.ret.payloads and ex.check(p.pcs + [p.ret.disc == 0])[0]]
+    for p in paths:
+        if p.status != 'return':
+            ctx.absorb(ex, [p])
+    if len(ok) != 1:
+        raise Inconclusive('AEADBodyCodec::new_decoder: %d constructing paths' % len(ok))
+    p0 = ok[0]
+    p0.pcs.append(p0.ret.disc == 0)
+    p0.st['#codec'] = p0.ret.payloads['Ok'][0]
+    keys = {'req_key': sess.fields[1].arr, 'req_iv': sess.fields[0].arr, 'resp_key': sess.fields[3].arr, 'resp_iv': sess.fields[2].arr}
+    return ex, p0, keys
+
+
+def vmess_streams(security, chunk, padding, keys, K, hi=0x3000):
+    """both directions of one VMess connection: the request body and the response body (the authenticated-length cipher is keyed
+    with the request key and IV in both directions, as the implementations of this protocol do)"""
+    req = wire.vmess_body_stream(security, chunk, padding, keys['req_key'], keys['req_iv'], keys['req_key'], keys['req_iv'], K, 'req', hi=hi)
+    resp = wire.vmess_body_stream(security, chunk, padding, keys['resp_key'], keys['resp_iv'], keys['req_key'], keys['req_iv'], K, 'resp', hi=hi)
+    return req, resp
+
+
+def make_vmess_body_job(security, chunk, padding, side, tier, nseg, packet=False):
+    def job(ctx):
+        K = K_of(tier)
+        ex, p0, keys = vmess_setup(ctx, security, chunk, padding, side, 'attack', 3 * K + 6)
+        req, resp = vmess_streams(security, chunk, padding, keys, K)
+        genuine = req if side == 'server' else resp
+        other = resp if side == 'server' else req
+        A, cA = symbuf('src')
+        fn = ctx.prog.find_impl_fn('AEADBodyCodec', 'decode_packet' if packet else 'decode_payload')
+        ex.inputs = {'src': A}
+        ex.inputs.update(payload_inputs('req', req))
+        ex.inputs.update(payload_inputs('resp', resp))
+        pcs = [cA] + req.constraints + resp.constraints
+        # the two directions use different keys (the response key is a hash of the request key)
+        pcs.append(z3.Or(*[z3.Select(keys['req_key'], bv64(i)) != z3.Select(keys['resp_key'], bv64(i)) for i in range(16)]))
+        results = drive(ex, fn, [Ref('#codec'), Ref('#src'), Ref('#sess')], {'#src': A}, pcs, {'sealed': req.entries + resp.entries}, 4 + nseg + 2 * K, opt_item, nseg=nseg, start=p0)
+        full = 0
+        gname = 'req' if side == 'server' else 'resp'
+        for k in range(max(req.draws, resp.draws) + 2):
+            ex.inputs['shake%d' % k] = (wire.shake_draw(k), 'u16')
+        rp = framed_spec('vmess_body', {'security': security, 'chunk': chunk, 'padding': padding, 'side': side, 'packet': packet}, 'not_prefix',
+                         [['%s%d' % (gname, i) for i in range(K)]])
+        for p, rel, end in results:
+            ctx.absorb(ex, [p])
+            if end == 'calls':
+                ctx.out.inconclusive.append('decode call bound reached')
+                continue
+            if p.status != 'return':
+                continue
+            if packet:
+                # datagram framing: every released item is exactly one genuine chunk, in order
+                cands = [genuine.payloads]
+                prove_prefix(ctx, ex, p, rel, cands, 'released datagrams are not a prefix of the datagrams the genuine peer sent', fn.name + '@released', replay=rp)
+                arr, total = concat_view(ex, p, rel)
+            else:
+                prove_prefix(ctx, ex, p, rel, [genuine.payloads], 'released bytes are not a prefix of what the genuine peer wrote', fn.name + '@released', replay=rp)
+                arr, total = concat_view(ex, p, rel)
+            full += ex.check(p.pcs + [total == sum_len(genuine.payloads)])[0]
+        ctx.out.vacuity = [('some path delivers the whole genuine stream', full > 0)]
+        ctx.out.samples.append({'decoder': fn.name, 'options': [security, chunk, padding, side], 'segments': nseg, 'runs': len(results)})
+    return job
